@@ -197,6 +197,8 @@ package gabi
 //@   modifies nothing
 //@   mustfail canary: !result
 
+//@ # proofsok names the verdict of ProofS.Verify as a function of the seven numbers it reads (the function is deterministic in them)
+//@ declare proofsok/7b
 //@ func (*ProofS).Verify
 //@   property C06 C08
 //@   nonlinear
@@ -207,6 +209,7 @@ package gabi
 //@   assert at common.HashCommit q: val($0[1]) == pow(val(signature.A), val(signature.E), abs(val(pk.N)))
 //@   assert at common.HashCommit acommit: val($0[4]) == pow(val(signature.A), val(p.C) + val(p.EResponse) * val(signature.E), abs(val(pk.N)))
 //@   ensures binding: result ==> val(p.C) >= 0
+//@   premise definition: result <==> proofsok(val(p.C), val(p.EResponse), val(signature.A), val(signature.E), val(pk.N), val(context), val(nonce))
 
 //@ # ---- proof lists ----
 //@ # a decodable list: every element is a non-nil *ProofD or *ProofU, all distinct objects, with non-negative integers and empty caches
@@ -258,8 +261,11 @@ package gabi
 //@   ensures value: result0 != nil && fresh(result0) && val(result0) == represent(pk.R, exps, pk.N, pk.Params.Lm, 0, len(exps))
 //@   modifies nothing
 
+//@ pred clsigok(s, pk, ms) := pow2(pk.Params.Le - 1) <= val(s.E) && val(s.E) <= pow2(pk.Params.Le - 1) + pow2(pk.Params.LePrime - 1) && isprime(val(s.E)) && val(pk.Z) == rem(prod(prod(pow(val(s.A), val(s.E), val(pk.N)), ite(s.KeyshareP != nil, prod(represent(pk.R, ms, pk.N, pk.Params.Lm, 0, len(ms)), val(s.KeyshareP)), represent(pk.R, ms, pk.N, pk.Params.Lm, 0, len(ms)))), powsigned(val(pk.S), val(s.V), val(pk.N))), val(pk.N))
+
 //@ func (*CLSignature).Verify
 //@   property C05 C06
+//@   ensures ok: result ==> clsigok(s, pk, ms)
 //@   safety
 //@   requires s != nil && wfpk(pk) && s.A != nil && s.E != nil && s.V != nil && len(ms) <= len(pk.R)
 //@   requires forall i in 0..len(ms) :: ms[i] != nil && val(ms[i]) >= 0
@@ -269,3 +275,32 @@ package gabi
 //@   ensures equationks: result && s.KeyshareP != nil ==> val(pk.Z) == rem(prod(prod(pow(val(s.A), val(s.E), val(pk.N)), prod(represent(pk.R, ms, pk.N, pk.Params.Lm, 0, len(ms)), val(s.KeyshareP))), powsigned(val(pk.S), val(s.V), val(pk.N))), val(pk.N))
 //@   modifies nothing
 //@   mustfail canary: !result
+
+//@ # ---- issuance, holder side (C06) ----
+//@ func (*Credential).NonrevIndex
+//@   property C06 C11
+//@   safety
+//@   requires ic != nil && (ic.NonRevocationWitness != nil ==> ic.NonRevocationWitness.E != nil) && forall i in 0..len(ic.Attributes) :: ic.Attributes[i] != nil
+//@   ensures found: err == nil ==> ic.NonRevocationWitness != nil && 0 <= result0 && result0 < len(ic.Attributes) && val(ic.Attributes[result0]) == val(ic.NonRevocationWitness.E)
+//@   modifies nothing
+//@   loop 0 invariant 0 <= $i && $i <= len(ic.Attributes)
+//@   mustfail canary: err != nil
+
+//@ func (*CredentialBuilder).ConstructCredential
+//@   property C06
+//@   safety
+//@   requires b != nil && wfpk(b.pk) && b.secret != nil && val(b.secret) >= 0 && b.vPrime != nil && b.context != nil && b.nonce2 != nil
+//@   requires len(attributes) + 1 <= len(b.pk.R)
+//@   requires forall i in 0..len(attributes) :: in(b.mUser, i + 1) || (attributes[i] != nil && val(attributes[i]) >= 0)
+//@   requires forall k in dom(b.mUser) :: b.mUser[k] != nil && val(b.mUser[k]) >= 0 && k >= 1
+//@   requires msg != nil ==> (msg.Proof != nil ==> (msg.Proof.C != nil ==> val(msg.Proof.C) >= 0) && (msg.Proof.EResponse != nil ==> val(msg.Proof.EResponse) >= 0)) && (msg.Signature != nil && msg.Signature.E != nil ==> val(msg.Signature.E) >= 0) && (forall k in dom(msg.MIssuer) :: msg.MIssuer[k] != nil ==> val(msg.MIssuer[k]) >= 0)
+//@   requires msg != nil && msg.NonRevocationWitness != nil ==> (msg.NonRevocationWitness.E != nil ==> val(msg.NonRevocationWitness.E) >= 0)
+//@   ensures fail: err != nil ==> result0 == nil
+//@   ensures proof: err == nil ==> msg != nil && msg.Proof != nil && msg.Signature != nil && proofsok(val(msg.Proof.C), val(msg.Proof.EResponse), val(msg.Signature.A), val(msg.Signature.E), val(b.pk.N), val(b.context), val(b.nonce2))
+//@   ensures signature: err == nil ==> result0 != nil && result0.Pk == b.pk && result0.Signature != nil && result0.Signature.A == msg.Signature.A && result0.Signature.E == msg.Signature.E && val(result0.Signature.V) == val(msg.Signature.V) + val(b.vPrime) && result0.Signature.KeyshareP == b.keyshareP && clsigok(result0.Signature, b.pk, result0.Attributes)
+//@   ensures attributes: err == nil ==> len(result0.Attributes) == len(attributes) + 1 && result0.Attributes[0] == b.secret && forall i in 1..len(result0.Attributes) :: (in(b.mUser, i) ==> val(result0.Attributes[i]) == val(msg.MIssuer[i]) + val(b.mUser[i])) && (!in(b.mUser, i) ==> result0.Attributes[i] == attributes[i - 1])
+//@   ensures witness: err == nil && msg.NonRevocationWitness != nil ==> result0.NonRevocationWitness == msg.NonRevocationWitness && msg.NonRevocationWitness.SignedAccumulator != nil && msg.NonRevocationWitness.SignedAccumulator.Accumulator != nil && pow(val(msg.NonRevocationWitness.U), val(msg.NonRevocationWitness.E), val(b.pk.N)) == val(msg.NonRevocationWitness.SignedAccumulator.Accumulator.Nu)
+//@   modifies msg.NonRevocationWitness.SignedAccumulator.Accumulator, heap("Witness.Updated")
+//@   loop 0 invariant fresh(ms) && len(ms) == len(attributes) + 1 && (forall j in 0..len(ms) :: (in(b.mUser, j) && seen(j) ==> ms[j] != nil && fresh(ms[j]) && msg.MIssuer[j] != nil && val(ms[j]) == val(msg.MIssuer[j]) + val(b.mUser[j])) && (!(in(b.mUser, j) && seen(j)) ==> ms[j] == old(ite(j == 0, b.secret, attributes[j - 1]))))
+//@   loop 0 modifies elems(ms), onlyfresh("BV")
+//@   mustfail canary: err != nil
